@@ -129,7 +129,11 @@ func c18Measure(cs c18Case) (allocs float64, bound float64, skipped bool) {
 		return b.AllocsSlice(0, L, c18Runs), 1, false
 	case "pool":
 		p := dyn.NewPool(d, al(C, 0, L))
-		return p.AllocsCycle(100), 0, false
+		runs := 100
+		if C*L > 1<<20 {
+			runs = 10 // every cycle clears the whole buffer
+		}
+		return p.AllocsCycle(runs), 0, false
 	}
 	panic("unknown op " + cs.Op)
 }
@@ -204,6 +208,13 @@ func init() {
 				for _, ck := range [][2]int{{8, 4096}, {2, 4500}, {1, 20000}} {
 					cases = append(cases, c18Case{Op: "pool", S: tn(t), D: tn(t), C: ck[0], L: ck[1]})
 				}
+				// megabytes: pools may treat big buffers differently (size thresholds in bytes)
+				for _, ck := range [][2]int{{8, 20000}, {1, 1<<20 + 3}, {2, 1<<21 + 1}, {3, 1400001}} {
+					cases = append(cases, c18Case{Op: "pool", S: tn(t), D: tn(t), C: ck[0], L: ck[1]})
+				}
+			}
+			for _, t := range []int{dyn.Int8, dyn.Int16, dyn.Float64} { // up to 128 MiB
+				cases = append(cases, c18Case{Op: "pool", S: tn(t), D: tn(t), C: 1, L: 1<<24 + 5})
 			}
 			var n, nt int64
 			for _, cs := range cases {
@@ -226,7 +237,7 @@ func init() {
 			c.Sample(cases[0])
 			c.Sample(cases[len(cases)/2])
 			c.Sample(cases[len(cases)-1])
-			c.Set("rule", "every configuration of {Sample/SetSample, AppendSample (not full / full), Append within capacity, self-Append within capacity, Channel view + all its methods, Slice, pool Get/AppendSample/Put cycle on the real sync.Pool} x 13 types and {Read, Write, ReadStriped, WriteStriped (slices equal/short+uneven/long/empty+nil), the nine conversions (source equal/shorter/longer)} x 169 type pairs, x C in {1,2,8} x lengths {0,1,64,1100[,4096]}, pools up to 8 x 4096 and 1 x 20000 samples x plain buffer / window with spare capacity; monitor: testing.AllocsPerRun (GOMAXPROCS 1, warm-up call, integer mean), a non-zero reading is re-measured 5x and the minimum taken; bound 0, Slice <= 1; non-trivial = length > 0; configurations distinct by construction")
+			c.Set("rule", "every configuration of {Sample/SetSample, AppendSample (not full / full), Append within capacity, self-Append within capacity, Channel view + all its methods, Slice, pool Get/AppendSample/Put cycle on the real sync.Pool} x 13 types and {Read, Write, ReadStriped, WriteStriped (slices equal/short+uneven/long/empty+nil), the nine conversions (source equal/shorter/longer)} x 169 type pairs, x C in {1,2,8} x lengths {0,1,64,1100[,4096]}, pools up to 8 x 4096 and 1 x 20000 samples for every case shape, plus pools of 160000 .. 4.2 million samples for all 13 types and of 2^24+5 samples (16-128 MiB) for three x plain buffer / window with spare capacity; monitor: testing.AllocsPerRun (GOMAXPROCS 1, warm-up call, integer mean), a non-zero reading is re-measured 5x and the minimum taken; bound 0, Slice <= 1; non-trivial = length > 0; configurations distinct by construction")
 			c.Assume("allocation sites are static: which are reached depends only on instantiation and branch, both enumerated", "not run under -race (race-mode sync.Pool drops items at random)", "runs in the plain build (no overlay): the unmodified package and the real sync.Pool")
 		},
 		RunCase: func(c *core.Ctx, raw json.RawMessage) []F {
